@@ -71,6 +71,8 @@ def run(chk, ctx):
         if f_ is not None:
             pfuncs[f_.qualname] = f_
     caching, unknown_deco = models.wrappers(prog, pfuncs.values())
+    from .. import controls
+    controls.caching_wrappers_control(chk)
     chk.ob('C20.S', 'frame.frame_parts path wrappers', not caching,
            '%d function(s) on the peek path, none memoised' % len(pfuncs)
            if not caching else 'memoised: %s (the argument is hashed: a '
